@@ -2,8 +2,8 @@
 """usage: tools/keep_mut.py <ID> <K> <quick_exit> <thorough_exit> "<caught-by summary>"  -- copy a confirmed seeded change into /verif/seeded/"""
 import json, os, shutil, sys, re
 ID, K, q, th, summary = sys.argv[1:6]
-src = f"/tmp/wt/out/{ID}"
-dst = f"/verif/seeded/{ID}-{K}"
+src = os.environ.get("MUT_SRC", "/tmp/wt/out") + f"/{ID}"
+dst = f"/verif/seeded/{ID}-" + os.environ.get("MUT_TAG", "") + f"{K}"
 os.makedirs(dst, exist_ok=True)
 shutil.copy(f"{src}/mut{K}.diff", f"{dst}/patch.diff")
 shutil.copy(f"{src}/demo{K}_test.go", f"{dst}/demo_test.go.txt")
